@@ -22,6 +22,7 @@ import BronVerif.Lemmas.SharingThreshold
 import BronVerif.Lemmas.SharingTree
 import BronVerif.Lemmas.SharingHier
 import BronVerif.Lemmas.SharingDeal
+import BronVerif.Lemmas.SharingPrivacy
 /-!
 # C02 — exactly the qualified sets can reconstruct; unqualified sets learn nothing
 
@@ -718,6 +719,60 @@ theorem model_share_smul (m : MSP F) (S : List ℕ) (k : F) (r : List F)
   | nil => simp at hr; omega
   | cons a r => simp [vsmul]
 
+/-- **Privacy, for the executable model.**  If the programme rejects the set `S` of row owners
+(`MSP.accepts S = false`: the mirrored solver, complete by `Props.C20.solveLeft_complete`, finds no
+combination of the rows of `S` equal to `e₀` — by `model_accepts_iff_qualified_threshold` /
+`lcw_holds` these are exactly the unqualified sets of threshold and gate-tree policies), then for
+every candidate secret `s'` there is a random column `r'` with first entry `s'` that deals to `S`
+exactly the shares `S` received from `r`: the shares `S` owns are consistent with every secret. -/
+theorem model_privacy (m : MSP F) (S : List ℕ) (r : List F) (hS : ∀ id ∈ S, id ∈ m.holders)
+    (hr : r.length = m.cols) (hpos : 0 < m.cols) (hrej : m.accepts S = false) (s' : F) :
+    ∃ r' : List F, r'.length = m.cols ∧ r'.getD 0 0 = s' ∧
+      BronVerif.Access.pick (m.deal r') (m.rowsOf S) = BronVerif.Access.pick (m.deal r) (m.rowsOf S) := by
+  -- a kernel column for the rows of S
+  obtain ⟨k, hklen, hk0, hker⟩ : ∃ k : List F, k.length = m.cols ∧ k.getD 0 0 = 1 ∧
+      ∀ row ∈ m.sub S, dot row k = 0 := by
+    by_cases hne : m.rowsOf S = []
+    · refine ⟨unitVec m.cols 0, by simp [unitVec], ?_, ?_⟩
+      · simp [unitVec, List.getD_eq_getElem?_getD, List.getElem?_range hpos]
+      · intro row hrow
+        simp [MSP.sub, hne, BronVerif.Access.pick] at hrow
+    · have hnone : solveLeft (m.sub S) m.cols (unitVec m.cols 0) = none := by
+        have h1 : (S.any fun id => !m.holders.contains id) = false := by
+          simp only [List.any_eq_false, Bool.not_eq_eq_eq_not]
+          intro id hid
+          simpa using hS id hid
+        have h2 : (m.rowsOf S).isEmpty = false := by
+          cases h : m.rowsOf S with
+          | nil => exact absurd h hne
+          | cons _ _ => rfl
+        unfold MSP.accepts MSP.reconVector at hrej
+        simp only [h1, h2, Bool.false_eq_true, if_false, MSP.target] at hrej
+        cases hs : solveLeft (m.sub S) m.cols (unitVec m.cols 0) with
+        | none => rfl
+        | some x => rw [hs] at hrej; simp at hrej
+      exact BronVerif.Lemmas.SharingPrivacy.kernel_of_solveLeft_none (m.sub S) m.cols hpos hnone
+  refine ⟨vadd r (vsmul (s' - r.getD 0 0) k), by simp [vadd, vsmul, hr, hklen], ?_, ?_⟩
+  · cases r with
+    | nil => simp at hr; omega
+    | cons a r =>
+      cases k with
+      | nil => simp at hklen; omega
+      | cons b k =>
+        simp only [List.getD_cons_zero] at hk0
+        simp [vadd, vsmul, hk0]
+  · have hpick : ∀ x : List F, BronVerif.Access.pick (m.deal x) (m.rowsOf S) =
+        (m.sub S).map fun row => dot row x := by
+      intro x
+      unfold MSP.deal LinAlg.mulVec MSP.sub
+      exact BronVerif.Lemmas.SharingDeal.pick_map _ _ _
+    rw [hpick, hpick]
+    refine List.map_congr_left fun row hrow => ?_
+    unfold vadd vsmul
+    rw [BronVerif.Lemmas.SharingDeal.dot_add_right row r _ (by simp [hr, hklen]),
+      BronVerif.Lemmas.SharingDeal.dot_smul_right, hker row hrow]
+    ring
+
 /-- the (2,3) threshold programme over `ZMod 7` as the model represents it -/
 def m23 : MSP (ZMod 7) := { mat := [[1, 1], [1, 2], [1, 3]], cols := 2, holders := [1, 2, 3] }
 
@@ -729,6 +784,12 @@ example : m23.reconstruct [2, 3] (vadd (m23.deal [4, 5]) (m23.deal [6, 1])) = so
 
 example : m23.reconstruct [1, 2] (vsmul 3 (m23.deal [4, 5])) = some (3 * 4) :=
   (model_share_smul m23 [1, 2] 3 [4, 5] (by decide) rfl (by decide) (by decide +kernel)).2
+
+/-- non-vacuity: holder 2 alone is rejected by the (2,3) programme; its share of `[4,5]` is also its
+share of some column with secret `6` -/
+example : ∃ r' : List (ZMod 7), r'.length = 2 ∧ r'.getD 0 0 = 6 ∧
+    BronVerif.Access.pick (m23.deal r') (m23.rowsOf [2]) = BronVerif.Access.pick (m23.deal [4, 5]) (m23.rowsOf [2]) :=
+  model_privacy m23 [2] [4, 5] (by decide) rfl (by decide) (by decide +kernel) 6
 
 end ModelScheme
 
